@@ -202,6 +202,9 @@ fn plan_inner(reg: &Registry, prop: Prop, rng: &mut Prng, lim: &Limits) -> Plan 
     let mask = any_detect && rng.chance(1, 2);
     let tasks = rng.range(1, 4) as u8;
     let strict_arena = rng.chance(1, 4);
+    // C15 / C12: a quarter of the histories run with every oracle evaluation postponed to the end (the oracles
+    // construct and use fresh instances, which would reset whatever process-wide state a call depends on)
+    let deferred = matches!(prop, Prop::C15 | Prop::C12) && rng.chance(1, 4);
     let len = match prop {
         Prop::C15 => rng.range(8, 96),
         _ => rng.range(8, 64),
@@ -245,7 +248,7 @@ fn plan_inner(reg: &Registry, prop: Prop, rng: &mut Prng, lim: &Limits) -> Plan 
     Plan {
         max_blocks: None,
         pars_hint: None,
-        cfg: RunCfg { variants, mask, tasks, strict_arena },
+        cfg: RunCfg { variants, mask, tasks, strict_arena, deferred },
         len,
         weights,
         shape_w,
